@@ -94,6 +94,8 @@ PROFILES = {
     "dedupself": dict(BASE, ntasks=(5, 10), nseg=(2, 4), p_dedup=0.6, p_task=0.25, p_item=0.15, p_dirty=0.15, ndfn=(1, 1), nkeys=1,
                       nkinds=(1, 2), p_dself=0.6, dbinds=("fn", "inst1")),
     "dedupsync": dict(BASE, ntasks=(3, 9), p_dedup=0.4, p_task=0.25, p_item=0.2, p_dirty=0.25, p_sync=0.2),
+    "dedupvar": dict(BASE, ntasks=(4, 9), nseg=(2, 4), p_dedup=0.6, p_task=0.2, p_item=0.15, p_dirty=0.3, ndfn=(1, 1), nkeys=2, dfn_base=10,
+                     nkinds=(1, 2)),
     "dedupcatch": dict(BASE, ntasks=(4, 9), nseg=(2, 4), p_dedup=0.5, p_task=0.2, p_item=0.25, p_dirty=0.15, ndfn=(1, 1), nkeys=1,
                        nkinds=(2, 2), p_errleaf=0.15, p_raise=0.1, p_catch=0.7),
     "overflowbatch": dict(BASE, ntasks=(4, 9), nleaf=(1, 3), p_task=0.45, p_item=0.45, p_sync=0.1, maxstack=(3, 6), ncalls=3,
@@ -188,7 +190,7 @@ class Gen(object):
 
     def dedup_instance(self):
         r, p = self.r, self.p
-        g = r.randint(1, r.randint(*p["ndfn"]))
+        g = r.randint(1, r.randint(*p["ndfn"])) + p.get("dfn_base", 0)      # function numbers > 10: signature (a=-1, *rest, b=0)
         if g not in self.dfn_bodies:
             segs = []
             for k in range(r.randint(0, 2)):
@@ -510,7 +512,7 @@ def chain(depth, variant="plain"):
     return program(tasks)
 
 
-def enum_dedup(max_len=3, bodies=(1, 2), nactors=2, bind="fn", key=1, spell0=0, body_kind=1, catching=False):
+def enum_dedup(max_len=3, bodies=(1, 2), nactors=2, bind="fn", key=1, spell0=0, body_kind=1, catching=False, fn=1):
     """Complete family for C12: the root yields [D(first call), actor_1, ..., actor_n]; every actor is a sequence of
     <= max_len steps over {W: wait one flush round, C: call the deduplicated function, X: dirty() then call};
     the deduplicated body waits for 1 or 2 flush rounds.  One function, one key, one batch kind.
@@ -529,7 +531,7 @@ def enum_dedup(max_len=3, bodies=(1, 2), nactors=2, bind="fn", key=1, spell0=0, 
             insts = []
 
             def new_inst():
-                tasks.append({"segs": json.loads(json.dumps(body)), "dedup": {"fn": 1, "key": key, "spell": (spell0 + len(insts)) % 6, "bind": bind}})
+                tasks.append({"segs": json.loads(json.dumps(body)), "dedup": {"fn": fn, "key": key, "spell": (spell0 + len(insts)) % 6, "bind": bind}})
                 insts.append(len(tasks))
                 return len(tasks)
 
